@@ -71,8 +71,19 @@ def main():
     import tempfile
     scratch = tempfile.mkdtemp(prefix='dst-seeded-')
     try:
-        shutil.copytree('/repo/minecraft', os.path.join(scratch, 'minecraft'),
-                        ignore=shutil.ignore_patterns('__pycache__'))
+        # the commit the seeder worked on (its worktree's HEAD): /repo may
+        # have gained a `fix:` commit touching the same lines since
+        rc_, base = sh('git rev-parse --short HEAD', cwd=wt)
+        base = base.strip().splitlines()[-1] if rc_ == 0 else None
+        meta['base_commit'] = base
+        r = subprocess.run('git -C /repo archive %s minecraft | tar -x -C %s'
+                           % (base, scratch), shell=True,
+                           capture_output=True, text=True)
+        if r.returncode != 0 or not os.path.isdir(
+                os.path.join(scratch, 'minecraft')):
+            shutil.copytree('/repo/minecraft',
+                            os.path.join(scratch, 'minecraft'),
+                            ignore=shutil.ignore_patterns('__pycache__'))
         r = subprocess.run(['patch', '-p1', '-s', '-i', patch], cwd=scratch,
                            capture_output=True, text=True)
         if r.returncode != 0:
